@@ -83,7 +83,7 @@ def run(tier, t0):
                     bad = ("disabled_contract_enforced", str(row))
                 elif row.get("invalid_error") == "ValueError":
                     bad = ("disabled_validated_error", str(row))
-            elif row["kind"] in ("static_object", "classm_object"):
+            elif row["kind"] in ("static_object", "classm_object", "property_object"):
                 pass  # an ENABLED decorator above @staticmethod / @classmethod is not in the statement (the documented order is below)
             else:
                 if deco in ("require", "ensure", "invariant"):
